@@ -35,6 +35,9 @@ pub enum PointSpec {
     Former(u16),
     /// far away / extreme magnitude
     Extreme(i8, i16),
+    /// integer affine combination (weights summing to 1) of the first <= D vertices: lies in their
+    /// affine hull, i.e. a collinear/coplanar bootstrap prefix or a point on a facet hyperplane
+    AffineComb(Vec<i8>),
 }
 
 #[derive(Debug, Clone, Serialize, Deserialize, PartialEq)]
@@ -63,6 +66,8 @@ pub enum Op {
     SetRepairPolicy(u8),
     SetCheckPolicy(u8),
     CloneSwap,
+    /// call as_triangulation_mut() (documented to invalidate caches) without changing anything
+    TouchMut,
 }
 
 pub fn validation_policy(k: u8) -> ValidationPolicy {
@@ -96,6 +101,25 @@ pub fn check_policy(k: u8) -> DelaunayCheckPolicy {
     }
 }
 
+pub fn insertion_error_class(e: &delaunay::core::algorithms::incremental_insertion::InsertionError) -> &'static str {
+    use delaunay::core::algorithms::incremental_insertion::InsertionError as E;
+    match e {
+        E::DuplicateCoordinates { .. } => "DuplicateCoordinates",
+        E::DuplicateUuid { .. } => "DuplicateUuid",
+        other => {
+            // the duplicate errors also arrive wrapped (e.g. Construction(Tds(DuplicateUuid { .. })))
+            let d = format!("{other:?}");
+            if d.contains("DuplicateUuid") {
+                "DuplicateUuid"
+            } else if d.contains("DuplicateCoordinates") {
+                "DuplicateCoordinates"
+            } else {
+                "other"
+            }
+        }
+    }
+}
+
 #[derive(Debug, Clone)]
 pub struct FlipSummary {
     pub k: usize,
@@ -109,8 +133,8 @@ pub struct FlipSummary {
 #[derive(Debug, Clone)]
 pub enum Outcome {
     Inserted { key: u64, uuid: u128, coords: Vec<f64>, data: Option<i64>, attempts: usize },
-    Skipped { error: String, duplicate: bool, attempts: usize },
-    InsertErr { error: String },
+    Skipped { error: String, duplicate: bool, attempts: usize, class: &'static str },
+    InsertErr { error: String, class: &'static str },
     Removed { cells: usize, uuid: u128, known: bool },
     RemoveErr { error: String },
     Flip(FlipSummary),
@@ -118,6 +142,8 @@ pub enum Outcome {
     Repaired { flips: usize, heuristic: bool },
     RepairErr { error: String, invalid_topology: bool },
     Set,
+    /// a policy setter panicked (debug_assert!(false) in the debug-assertion profile): a C19 matter
+    SetPanicked { site: String, message: String },
     Noop,
 }
 
@@ -134,6 +160,7 @@ impl Outcome {
             Outcome::Repaired { .. } => "Repaired",
             Outcome::RepairErr { .. } => "RepairErr",
             Outcome::Set => "Set",
+            Outcome::SetPanicked { .. } => "SetPanicked",
             Outcome::Noop => "Noop",
         }
     }
@@ -184,6 +211,42 @@ impl<K: Kern<D>, const D: usize> World<K, D> {
 
     pub fn snap(&self) -> Snap {
         Snap::of(self.dt.tds())
+    }
+
+    /// Insert into a clone (the world itself is untouched) and report the outcome.
+    pub fn probe_insert(&self, coords: &[f64], uuid: u128, stats: bool) -> Outcome {
+        let mut c = self.dt.clone();
+        if std::env::var_os("DVCHECK_DROP_CACHES").is_some() {
+            let _ = c.as_triangulation_mut();
+        }
+        let v = mk_vertex::<i32, D>(coords, uuid::Uuid::from_u128(uuid), Some(-7));
+        if stats {
+            match c.insert_with_statistics(v) {
+                Ok((InsertionOutcome::Inserted { vertex_key, .. }, st)) => Outcome::Inserted { key: crate::oracle::snap::vkey_u64(vertex_key), uuid, coords: coords.to_vec(), data: Some(-7), attempts: st.attempts },
+                Ok((InsertionOutcome::Skipped { error }, st)) => Outcome::Skipped { class: insertion_error_class(&error), error: error.to_string(), duplicate: st.skipped_duplicate(), attempts: st.attempts },
+                Err(e) => Outcome::InsertErr { class: insertion_error_class(&e), error: format!("{e:?}") },
+            }
+        } else {
+            match c.insert(v) {
+                Ok(k) => Outcome::Inserted { key: crate::oracle::snap::vkey_u64(k), uuid, coords: coords.to_vec(), data: Some(-7), attempts: 0 },
+                Err(e) => Outcome::InsertErr { class: insertion_error_class(&e), error: format!("{e:?}") },
+            }
+        }
+    }
+
+    pub fn policies(&self) -> String {
+        format!(
+            "{:?}/{:?}/{:?}/{:?}/{:?}",
+            self.dt.validation_policy(),
+            self.dt.topology_guarantee(),
+            self.dt.delaunay_repair_policy(),
+            self.dt.delaunay_check_policy(),
+            self.dt.global_topology()
+        )
+    }
+
+    pub fn fingerprint(&self, s: &Snap) -> crate::oracle::fingerprint::Fingerprint {
+        crate::oracle::fingerprint::fingerprint(s, &self.policies(), false)
     }
 
     pub fn resolve_point(&self, s: &Snap, p: &PointSpec) -> Vec<f64> {
@@ -267,6 +330,22 @@ impl<K: Kern<D>, const D: usize> World<K, D> {
                 } else {
                     self.removed[pick(*i, self.removed.len())].1.clone()
                 }
+            }
+            PointSpec::AffineComb(w) => {
+                let k = nv.min(D);
+                if k == 0 {
+                    return vec![0.0; D];
+                }
+                let mut ws: Vec<f64> = (0..k).map(|i| (*w.get(i).unwrap_or(&0) % 4) as f64).collect();
+                let sum: f64 = ws.iter().sum();
+                ws[0] += 1.0 - sum;
+                let mut out = vec![0.0; D];
+                for (i, wi) in ws.iter().enumerate() {
+                    for j in 0..D {
+                        out[j] += wi * s.verts[i].coords[j];
+                    }
+                }
+                out
             }
             PointSpec::Extreme(e, m) => {
                 let e = (*e as i32).clamp(-120, 120) * 8;
@@ -368,13 +447,13 @@ impl<K: Kern<D>, const D: usize> World<K, D> {
                         Ok((InsertionOutcome::Inserted { vertex_key, .. }, st)) => {
                             Outcome::Inserted { key: crate::oracle::snap::vkey_u64(vertex_key), uuid: u, coords, data, attempts: st.attempts }
                         }
-                        Ok((InsertionOutcome::Skipped { error }, st)) => Outcome::Skipped { error: error.to_string(), duplicate: st.skipped_duplicate(), attempts: st.attempts },
-                        Err(e) => Outcome::InsertErr { error: format!("{e:?}") },
+                        Ok((InsertionOutcome::Skipped { error }, st)) => Outcome::Skipped { class: insertion_error_class(&error), error: error.to_string(), duplicate: st.skipped_duplicate(), attempts: st.attempts },
+                        Err(e) => Outcome::InsertErr { class: insertion_error_class(&e), error: format!("{e:?}") },
                     }
                 } else {
                     match self.dt.insert(v) {
                         Ok(k) => Outcome::Inserted { key: crate::oracle::snap::vkey_u64(k), uuid: u, coords, data, attempts: 0 },
-                        Err(e) => Outcome::InsertErr { error: format!("{e:?}") },
+                        Err(e) => Outcome::InsertErr { class: insertion_error_class(&e), error: format!("{e:?}") },
                     }
                 }
             }
@@ -506,13 +585,19 @@ impl<K: Kern<D>, const D: usize> World<K, D> {
             }
             Op::SetValidation(k) => {
                 r.desc = format!("set_validation_policy({:?})", validation_policy(*k));
-                self.dt.set_validation_policy(validation_policy(*k));
-                Outcome::Set
+                let pol = validation_policy(*k);
+                match crate::driver::ctx::guarded(|| self.dt.set_validation_policy(pol)) {
+                    Ok(()) => Outcome::Set,
+                    Err((loc, msg)) => Outcome::SetPanicked { site: crate::driver::ctx::panic_site(&loc), message: msg },
+                }
             }
             Op::SetGuarantee(k) => {
                 r.desc = format!("set_topology_guarantee({:?})", guarantee(*k));
-                self.dt.set_topology_guarantee(guarantee(*k));
-                Outcome::Set
+                let g = guarantee(*k);
+                match crate::driver::ctx::guarded(|| self.dt.set_topology_guarantee(g)) {
+                    Ok(()) => Outcome::Set,
+                    Err((loc, msg)) => Outcome::SetPanicked { site: crate::driver::ctx::panic_site(&loc), message: msg },
+                }
             }
             Op::SetRepairPolicy(k) => {
                 r.desc = format!("set_delaunay_repair_policy({:?})", repair_policy(*k));
@@ -523,6 +608,11 @@ impl<K: Kern<D>, const D: usize> World<K, D> {
                 r.desc = format!("set_delaunay_check_policy({:?})", check_policy(*k));
                 self.dt.set_delaunay_check_policy(check_policy(*k));
                 Outcome::Set
+            }
+            Op::TouchMut => {
+                r.desc = "as_triangulation_mut() (no change)".into();
+                let _ = self.dt.as_triangulation_mut();
+                Outcome::Noop
             }
             Op::CloneSwap => {
                 r.desc = "clone and continue on the clone".into();
@@ -548,6 +638,7 @@ pub fn point_spec(dim: usize) -> BoxedStrategy<PointSpec> {
         3 => (any::<u16>(), 0u8..8).prop_map(|(f, t)| PointSpec::BeyondHull(f, t)),
         1 => any::<u16>().prop_map(PointSpec::OnHullPlane),
         1 => any::<u16>().prop_map(PointSpec::Former),
+        2 => proptest::collection::vec(-3i8..=3, dim).prop_map(PointSpec::AffineComb),
     ]
     .boxed()
 }
@@ -610,7 +701,7 @@ pub fn op_strategy(dim: usize, mix: OpMix) -> BoxedStrategy<Op> {
         arms.push((mix.setters, setters.boxed()));
     }
     if mix.clone > 0 {
-        arms.push((mix.clone, Just(Op::CloneSwap).boxed()));
+        arms.push((mix.clone, prop_oneof![Just(Op::CloneSwap), Just(Op::TouchMut)].boxed()));
     }
     proptest::strategy::Union::new_weighted(arms).boxed()
 }
